@@ -134,9 +134,9 @@ def clFor (before after : Snap) (k : Kind) (name : String) (m : Nat) : String :=
     "KF-dhcp4-stale-index-revival"
   else "none"
 
-/-- per ended session: the address is back, the open accounting session got its Stop -/
-def vEnd (before after : Snap) (k : Kind) : List Verdict :=
-  (ended before k).flatMap fun (m, ip, path) =>
+/-- for one ended session: the address is back, the open accounting session got its Stop -/
+def endChecks (before after : Snap) (k : Kind) : Nat × Nat × String → List Verdict
+  | (m, ip, path) =>
     (if (after.leaseOf m).isSome || after.binds m then
        [("addr-not-returned", clFor before after k "addr-not-returned" m, s!"after {path} m{m} still holds a{ip} (lease or pool binding)")]
      else if !(after.free.contains ip) && !(after.unavail.contains ip) then
@@ -149,6 +149,8 @@ def vEnd (before after : Snap) (k : Kind) : List Verdict :=
          if sp == 0 then [("missing-stop", clFor before after k "missing-stop" m, s!"after {path} of m{m} session {o} has a Start and no Accounting-Stop")]
          else []
        | none => [("missing-stop", clFor before after k "missing-stop" m, s!"the records of session {o} vanished")])
+
+def vEnd (before after : Snap) (k : Kind) : List Verdict := (ended before k).flatMap (endChecks before after k)
 
 def pathOf (before : Snap) (k : Kind) (m : Nat) : String :=
   match (ended before k).find? (fun e => e.1 == m) with
@@ -239,7 +241,7 @@ def kindOf (op : OpX) (ran : Bool) : Kind :=
   match op with
   | .op (.term t) => { terms := termKind t, sweep := isCleanup t }
   | .op (.gap _ inner) => if ran then { terms := termKind inner, sweep := true } else { sweep := true }
-  | .op (.split a b) => { terms := termKind a ++ termKind b, sweep := isCleanup b }
+  | .op (.split a b) => { terms := termKind a ++ termKind b, sweep := isCleanup a || isCleanup b }
   | .op .shutdown => if ran then { shutdown := true } else {}
   | .estGap m a _ inner =>
     if ran then { terms := termKind inner, sweep := isCleanup inner, established := some (m, a) } else {}
